@@ -482,7 +482,7 @@ func (ip *Interp) Call(fn *ssa.Function, args []Val, bind []Val, st *State) (res
 			for i := range in {
 				idxs[i] = i
 			}
-			tree = ip.buildMerge(act, b, in, idxs)
+			tree = ip.buildMerge(act, ins, b, in, idxs)
 		}
 		cur := in[0].st
 		if tree != nil {
@@ -623,7 +623,7 @@ func (ip *Interp) Call(fn *ssa.Function, args []Val, bind []Val, st *State) (res
 			in[i] = edgeIn{pred: retBlocks[i], st: retStates[i]}
 			idxs[i] = i
 		}
-		tree := ip.buildMerge(act, nil, in, idxs)
+		tree := ip.buildMerge(act, ins, nil, in, idxs)
 		outS = ip.foldState(tree, in)
 		if res != nil {
 			res = ip.foldVal(tree, func(e int) Val { return retVals[e] })
@@ -767,7 +767,55 @@ type mnode struct {
 	t, f  *mnode
 }
 
-func (ip *Interp) buildMerge(act *activation, b *ssa.BasicBlock, in []edgeIn, idxs []int) *mnode {
+// chainStep is one undecided branch on the way from the merge's common dominator
+// to an incoming edge: the edge is taken only if `gate` has the outcome `side`.
+type chainStep struct {
+	gate string
+	side bool
+}
+
+// edgeChain returns the exact path condition of the incoming edge pred -> b relative
+// to lca, as the conjunction of branch outcomes, provided every block between lca and
+// pred has a single live incoming edge (so the conjunction is also necessary). ok is
+// false when some block on the way is itself a join or a branch condition has no key.
+func (ip *Interp) edgeChain(act *activation, ins map[*ssa.BasicBlock][]edgeIn, lca, b, pred *ssa.BasicBlock) ([]chainStep, bool) {
+	var rev []chainStep
+	child, cur := b, pred
+	for n := 0; ; n++ {
+		if n > 100000 || cur == nil {
+			return nil, false
+		}
+		if len(cur.Instrs) > 0 {
+			if iff, isIf := cur.Instrs[len(cur.Instrs)-1].(*ssa.If); isIf && cur.Succs[0] != cur.Succs[1] {
+				cb, isB := act.env[iff.Cond].(*Bool)
+				if !isB {
+					return nil, false
+				}
+				if cb.K == TriTop {
+					if cb.Cmp == nil && cb.Key == "" {
+						return nil, false
+					}
+					rev = append(rev, chainStep{ValKey(cb), child == cur.Succs[0]})
+				}
+			}
+		}
+		if cur == lca {
+			break
+		}
+		live := ins[cur]
+		if len(live) != 1 {
+			return nil, false
+		}
+		child, cur = cur, live[0].pred
+	}
+	out := make([]chainStep, len(rev))
+	for i := range rev {
+		out[i] = rev[len(rev)-1-i]
+	}
+	return out, true
+}
+
+func (ip *Interp) buildMerge(act *activation, ins map[*ssa.BasicBlock][]edgeIn, b *ssa.BasicBlock, in []edgeIn, idxs []int) *mnode {
 	if len(idxs) == 1 {
 		return &mnode{edge: idxs[0]}
 	}
@@ -786,36 +834,72 @@ func (ip *Interp) buildMerge(act *activation, b *ssa.BasicBlock, in []edgeIn, id
 		}
 		lca = lca.Idom()
 	}
-	if lca != nil && len(lca.Instrs) > 0 {
-		if iff, ok := lca.Instrs[len(lca.Instrs)-1].(*ssa.If); ok && lca.Succs[0] != lca.Succs[1] {
-			if cb, isB := act.env[iff.Cond].(*Bool); isB && cb.K == TriTop && (cb.Cmp != nil || cb.Key != "") {
-				var ts, fs []int
-				ok := true
-				for _, i := range idxs {
-					p := in[i].pred
-					switch {
-					case p == lca:
-						if b == lca.Succs[0] {
-							ts = append(ts, i)
-						} else {
-							fs = append(fs, i)
-						}
-					case lca.Succs[0].Dominates(p) && !lca.Succs[1].Dominates(p):
-						ts = append(ts, i)
-					case lca.Succs[1].Dominates(p) && !lca.Succs[0].Dominates(p):
-						fs = append(fs, i)
-					default:
-						ok = false
+	if lca != nil {
+		// edges whose path condition from lca is an exact conjunction (D) and the rest (U)
+		chains := map[int][]chainStep{}
+		var D, U []int
+		for _, i := range idxs {
+			if ch, ok := ip.edgeChain(act, ins, lca, b, in[i].pred); ok {
+				chains[i] = ch
+				D = append(D, i)
+			} else {
+				U = append(U, i)
+			}
+		}
+		if len(D) > 0 {
+			var els *mnode
+			if len(U) > 0 {
+				els = ip.buildMerge(act, ins, b, in, U)
+			}
+			bad := false
+			var build func(d []int, depth int) *mnode
+			build = func(d []int, depth int) *mnode {
+				if len(d) == 0 {
+					return els
+				}
+				exhausted := 0
+				for _, i := range d {
+					if len(chains[i]) <= depth {
+						exhausted++
 					}
 				}
-				if ok && len(ts) > 0 && len(fs) > 0 {
-					return &mnode{gate: ValKey(cb), exact: true, t: ip.buildMerge(act, b, in, ts), f: ip.buildMerge(act, b, in, fs)}
+				if exhausted > 0 {
+					if len(d) == 1 {
+						return &mnode{edge: d[0]}
+					}
+					bad = true
+					return nil
 				}
+				g := chains[d[0]][depth].gate
+				var ts, fs []int
+				for _, i := range d {
+					st := chains[i][depth]
+					if st.gate != g {
+						bad = true
+						return nil
+					}
+					if st.side {
+						ts = append(ts, i)
+					} else {
+						fs = append(fs, i)
+					}
+				}
+				t, f := build(ts, depth+1), build(fs, depth+1)
+				switch {
+				case t == nil:
+					return f
+				case f == nil:
+					return t
+				}
+				return &mnode{gate: g, exact: true, t: t, f: f}
+			}
+			if n := build(D, 0); n != nil && !bad {
+				return n
 			}
 		}
 	}
-	// no usable controlling branch: inexact sequential merge
-	return &mnode{gate: "", exact: false, t: ip.buildMerge(act, b, in, idxs[:1]), f: ip.buildMerge(act, b, in, idxs[1:])}
+	// no usable controlling branches: inexact sequential merge
+	return &mnode{gate: "", exact: false, t: ip.buildMerge(act, ins, b, in, idxs[:1]), f: ip.buildMerge(act, ins, b, in, idxs[1:])}
 }
 
 func (ip *Interp) setGate(n *mnode) {
